@@ -31,10 +31,11 @@ Conv(e) ==
 Events == LET raw == ndJsonDeserialize(EventFile) IN {Conv(raw[k]) : k \in DOMAIN raw}
 
 Relevant(path) ==
-  CASE path = "qpoints" -> {"dmCopy", "ompRound"}
+  CASE path = "qpoints" -> {"dmCopy", "ompRound", "qCopy"}
     [] path = "mesh" -> {"ompRound"}
     [] path = "itermesh" -> {"iterInit", "gcPrivate", "iterFactor"}
-    [] path = "band" -> {"closedDir"}
+    [] path = "band" -> {"closedDir", "qCopy"}
+    [] path = "direct" -> {"qCopy"}
     [] OTHER -> {}
 AllCodes == [CodeSites -> BOOLEAN]
 
